@@ -1002,4 +1002,104 @@ theorem write_ok_iff (v : Value) (b : Bytes) : write v = .ok b ↔ v.lenFits = t
   · rename_i h; simp [h, eq_comm]
   · rename_i h; simp [h]
 
+/-! ### the `i32` level counter overflows on a whole run: 2^31 nested structure starts (symbolic, by a loop lemma) -/
+
+theorem header_anon_struct : header .anon (.cont .struct) = [0x15] := by decide
+
+/-- skipping over `k` anonymous structure starts raises the `i32` level by `k` (as long as it fits) -/
+theorem skipLoop_opens : ∀ (k f : Nat) (rest : Bytes) (l : Nat), l + k + 1 < I32LIM →
+    skipLoop (f + k) (List.replicate k 0x15 ++ rest) (l + 1) = skipLoop f rest (l + 1 + k)
+  | 0, f, rest, l, _ => by simp
+  | k + 1, f, rest, l, h => by
+    have e : List.replicate (k + 1) (0x15 : UInt8) ++ rest
+        = header .anon (.cont .struct) ++ (List.replicate k 0x15 ++ rest) := by
+      rw [header_anon_struct, List.replicate_succ]; rfl
+    rw [e, show f + (k + 1) = (f + k) + 1 by omega, skipLoop_open _ _ _ _ _ (by omega)]
+    rw [skipLoop_opens k f rest (l + 1) (by omega)]
+    congr 1; omega
+
+/-- at `level = i32::MAX` the next container start makes the whole loop panic -/
+theorem skipLoop_overflow (f : Nat) (X : Bytes) :
+    skipLoop (f + 1) (0x15 :: X) (I32LIM - 2 + 1) = .panic .overflow := by
+  have e : (0x15 : UInt8) :: X = header .anon (.cont .struct) ++ X := by rw [header_anon_struct]; rfl
+  have hl : I32LIM - 2 + 1 = I32LIM - 1 := by unfold I32LIM; omega
+  simp only [skipLoop, e, control_header, Res.ok_bind, hl, levelStep_overflow, Res.panic_bind]
+
+theorem containerNext_open (t : Tag) (k : Kind) (X : Bytes) :
+    containerNext (header t (.cont k) ++ X) = skipLoop (header t (.cont k) ++ X).length X 1 := by
+  have hne : (header t (.cont k) ++ X).isEmpty = false := by simp [header]
+  simp only [containerNext, hne, Bool.false_eq_true, if_false, control_header, Res.ok_bind,
+    ValueType.isContainerEnd, nextEnter_open, ValueType.isContainer, ValueType.isContainerStart, Bool.true_or, if_true]
+
+/-- **whole-run witness**: `container_next` (the advance of the element iterator) on an input consisting of
+at least 2^31 anonymous structure-start bytes panics with the `i32` overflow — proved symbolically by the loop
+lemma `skipLoop_opens`, no 2-GiB list is evaluated -/
+theorem containerNext_overflow (bs : Bytes) (hall : ∀ b ∈ bs, b = 0x15) (hlen : I32LIM ≤ bs.length) :
+    containerNext bs = .panic .overflow := by
+  have hrep : bs = List.replicate bs.length 0x15 := List.eq_replicate_iff.mpr ⟨rfl, hall⟩
+  have hI : 2 ≤ I32LIM := by unfold I32LIM; omega
+  obtain ⟨m, hm⟩ : ∃ m, bs.length = 1 + ((I32LIM - 2) + (1 + m)) := ⟨bs.length - I32LIM, by omega⟩
+  generalize hK : I32LIM - 2 = K at hm
+  have h1 : ∀ n, List.replicate (1 + n) (0x15 : UInt8) = 0x15 :: List.replicate n 0x15 := by
+    intro n; rw [Nat.add_comm, List.replicate_succ]
+  have hsplit : bs = header .anon (.cont .struct) ++
+      (List.replicate K 0x15 ++ (0x15 :: List.replicate m 0x15)) := by
+    rw [header_anon_struct]
+    conv => lhs; rw [hrep, hm, h1, ← List.replicate_append_replicate, h1]
+    rfl
+  rw [hsplit, containerNext_open, ← hsplit, hm, show 1 + (K + (1 + m)) = (1 + m + 1) + K by omega]
+  rw [skipLoop_opens K (1 + m + 1) _ 0 (by omega)]
+  rw [show 0 + 1 + K = I32LIM - 2 + 1 by omega]
+  exact skipLoop_overflow _ _
+
+/-- … and so does the first `next()` of the element iterator over such a sequence -/
+theorem iterNext_overflow (bs : Bytes) (hall : ∀ b ∈ bs, b = 0x15) (hlen : I32LIM ≤ bs.length) :
+    iterNext bs = (some (.panic .overflow), []) := by
+  have hn := containerNext_overflow bs hall hlen
+  have hI : 2 ≤ I32LIM := by unfold I32LIM; omega
+  cases bs with
+  | nil => simp at hlen; omega
+  | cons b tl =>
+    have hb : b = 0x15 := hall b (by simp)
+    subst hb
+    have hc : control (0x15 :: tl) = .ok ⟨.anon, .cont .struct⟩ := by simp only [control]; decide
+    have hcur : current (0x15 :: tl) = .ok (0x15 :: tl) := by
+      simp [current, hc, ValueType.isContainerEnd]
+    simp only [iterNext, hcur, hn]
+/-! ### the writer entry points with a caller-side length: `stri` / `utf8i`, `str_cb` / `utf8_cb` -/
+
+/-- with the right length, `stri` / `str` writes exactly the leaf `Prim.mkStr data` -/
+theorem writeStri_str (t : Tag) (data : Bytes) :
+    writeStri false t data.length data = encode (.leaf t (Prim.mkStr data)) := by
+  simp [writeStri, encode, Prim.mkStr, Prim.vt, Prim.payload]
+
+theorem writeStri_utf8 (t : Tag) (data : Bytes) :
+    writeStri true t data.length data = encode (.leaf t (Prim.mkUtf8 data)) := by
+  simp [writeStri, encode, Prim.mkUtf8, Prim.vt, Prim.payload]
+
+theorem lenWidth_le_255 {n : Nat} (h : n ≤ 255) : lenWidth n = .w1 := by simp [lenWidth, h]
+theorem lenWidth_le_65535 {n : Nat} (h1 : ¬ n ≤ 255) (h2 : n ≤ 65535) : lenWidth n = .w2 := by
+  simp [lenWidth, h1, h2]
+
+/-- `str_cb` / `utf8_cb` with at most 65535 bytes from the callback: the shortest-form leaf -/
+theorem writeStrCb_str (t : Tag) (data : Bytes) (h : data.length ≤ 65535) :
+    writeStrCb false t data = .ok (encode (.leaf t (Prim.mkStr data))) := by
+  unfold writeStrCb
+  by_cases h1 : data.length ≤ 255
+  · simp [h1, encode, Prim.mkStr, Prim.vt, Prim.payload, lenWidth_le_255 h1, Width.bytes]
+  · simp [h1, h, encode, Prim.mkStr, Prim.vt, Prim.payload, lenWidth_le_65535 h1 h, Width.bytes]
+
+theorem writeStrCb_utf8 (t : Tag) (data : Bytes) (h : data.length ≤ 65535) :
+    writeStrCb true t data = .ok (encode (.leaf t (Prim.mkUtf8 data))) := by
+  unfold writeStrCb
+  by_cases h1 : data.length ≤ 255
+  · simp [h1, encode, Prim.mkUtf8, Prim.vt, Prim.payload, lenWidth_le_255 h1, Width.bytes]
+  · simp [h1, h, encode, Prim.mkUtf8, Prim.vt, Prim.payload, lenWidth_le_65535 h1 h, Width.bytes]
+
+/-- beyond 65535 bytes the callback writers panic (a literal `panic!`, not an error) -/
+theorem writeStrCb_panics (u : Bool) (t : Tag) (data : Bytes) (h : 65535 < data.length) :
+    writeStrCb u t data = .panic .explicit := by
+  unfold writeStrCb
+  rw [if_neg (by omega), if_neg (by omega)]
+
 end Tlv
